@@ -49,6 +49,10 @@ def match_known(prop, violation, case=None):
         msg = violation.get('msg', '')
         if any(sub not in msg for sub in m.get('msg_contains', [])):
             continue
+        if 'msg_regex' in m:
+            import re
+            if not re.search(m['msg_regex'], msg):
+                continue
         return e
     return None
 
